@@ -157,6 +157,9 @@ pub fn scripts() -> Vec<Vec<u8>> {
         // chunked together with a zero length; expect with the body already in the same segment
         b"POST /k HTTP/1.1\r\ntransfer-encoding: chunked\r\ncontent-length: 0\r\n\r\n0\r\n\r\n".to_vec(),
         b"PUT /l HTTP/1.1\r\nexpect: 100-continue\r\n\r\nbody-without-length".to_vec(),
+        // the client announces that it will close: no effect on the protocol state (interim responses in particular stay interim)
+        b"PUT /m HTTP/1.1\r\nconnection: close\r\nexpect: 100-continue\r\ncontent-length: 5\r\n\r\nhello".to_vec(),
+        b"GET /n HTTP/1.1\r\nConnection: close\r\n\r\nGET /o HTTP/1.1\r\n\r\n".to_vec(),
     ]
 }
 
@@ -296,7 +299,8 @@ pub fn run_rst(ctx: &mut Ctx) {
     let nolen = enc(b"PUT /l HTTP/1.1\r\nexpect: 100-continue\r\n\r\nbody-without-length");
     let short = enc(b"PUT /d HTTP/1.1\r\nexpect: 100-continue\r\ncontent-length: 50\r\n\r\nhello");
     let mut idx = 2000u64;
-    for (script, opss) in [(&nolen, vec!["rr;bv", "rr;bf:100000", "rr;bf:5", "rr;bv;bv", "rr;bf:100000;rr"]), (&short, vec!["rr;bv", "rr;bf:100", "rr;bv;rr"])] {
+    // (`sw` after the reset: the socket call fails on a connection the peer has reset — the write side counts as shut down all the same)
+    for (script, opss) in [(&nolen, vec!["rr;bv", "rr;bf:100000", "rr;bf:5", "rr;bv;bv", "rr;bf:100000;rr", "rr;bv;sw;rr", "rr;bv;sw;wr:200:n;rr", "rr;bf:100000;sw;wc"]), (&short, vec!["rr;bv", "rr;bf:100", "rr;bv;rr", "rr;bv;sw;rr", "rr;bf:100;sw;wr:500:n"])] {
         for ops in opss {
             idx += 1;
             if ctx.mine(idx) { case_m(ctx, script, ops, "rst"); }
